@@ -147,11 +147,14 @@ fn check_recodings(ctx: &Ctx, s: &U, stats: &[AtomicU64; 6]) {
 
 fn cmp(ctx: &Ctx, name: &str, got: Result<EdwardsPoint, String>, want: &Pt, case: &serde_json::Value, record_key: Option<&str>) {
     ctx.eval(1);
+    // operations that exist only with the precomputed-tables feature go to the tables digest
+    let tname;
+    let rec_name = if name.contains("table") { tname = format!("T:{}", name); tname.as_str() } else { name };
     match got {
         Ok(p) => {
             let enc = p.compress().0;
             if let Some(k) = record_key {
-                ctx.record(&format!("{}/{}", name, k), &enc);
+                ctx.record(&format!("{}/{}", rec_name, k), &enc);
             }
             if enc != want.compress() {
                 let mut c = case.clone();
